@@ -800,6 +800,167 @@ def generate_sym():
     return '\n'.join(lines) + '\n'
 
 
+# ---------------------------------------------------------------- translator to coq/OrchAst.v
+class OrchTranslator:
+    """_numeric_partial / _compute_numeric_partials bodies -> OrchAst.ofun (fail-closed)"""
+
+    def __init__(self, where):
+        self.where = where
+
+    def fail(self, what, node=None):
+        raise TieError('cannot translate %s in %s: %s' % (what, self.where, ast.dump(node)[:160] if node is not None else ''))
+
+    def is_point(self, e):
+        return isinstance(e, ast.Name) and e.id == 'point'
+
+    def args(self, call_args):
+        out = []
+        for a in call_args:
+            if isinstance(a, ast.Starred):
+                out.append('("*", %s)' % self.expr(a.value))
+            else:
+                out.append('("", %s)' % self.expr(a))
+        return coq_list(out)
+
+    def expr(self, e):
+        if isinstance(e, ast.Name):
+            if e.id in ('point', 'variable_name', 'accumulator'):
+                self.fail('bare use of %s' % e.id, e)
+            return 'OSelf' if e.id == 'self' else '(OName %s)' % coq_str(e.id)
+        if isinstance(e, ast.Constant) and isinstance(e.value, int) and not isinstance(e.value, bool):
+            return '(OInt (%d)%%Z)' % e.value
+        if isinstance(e, ast.Attribute) and e.attr in ('_inner', '_left', '_right', '_inners'):
+            return '(OAttr %s %s)' % (self.expr(e.value), coq_str(e.attr))
+        if isinstance(e, ast.UnaryOp) and isinstance(e.op, ast.Not) and isinstance(e.operand, ast.Attribute) \
+                and e.operand.attr == '_variable_names':
+            return '(ONoVars %s)' % self.expr(e.operand.value)
+        if isinstance(e, ast.BinOp) and isinstance(e.op, ast.Add):
+            return '(OPlus %s %s)' % (self.expr(e.left), self.expr(e.right))
+        if isinstance(e, ast.BoolOp) and isinstance(e.op, ast.And):
+            out = self.expr(e.values[-1])
+            for x in reversed(e.values[:-1]):
+                out = '(OAnd %s %s)' % (self.expr(x), out)
+            return out
+        if isinstance(e, ast.Compare) and len(e.ops) == 1 and isinstance(e.ops[0], ast.Eq):
+            l, r = e.left, e.comparators[0]
+            if isinstance(l, ast.Attribute) and l.attr == 'name' and isinstance(l.value, ast.Name) and l.value.id == 'self' \
+                    and isinstance(r, ast.Name) and r.id == 'variable_name':
+                return 'ONameIs'
+            return '(OCmpEq %s %s)' % (self.expr(l), self.expr(r))
+        if isinstance(e, (ast.ListComp, ast.GeneratorExp)):
+            if len(e.generators) != 1 or e.generators[0].ifs or e.generators[0].is_async:
+                self.fail('comprehension shape', e)
+            g = e.generators[0]
+            if isinstance(g.target, ast.Name):
+                return '(OComp %s %s %s)' % (self.expr(e.elt), coq_str(g.target.id), self.expr(g.iter))
+            if isinstance(g.target, ast.Tuple) and len(g.target.elts) == 2 and all(isinstance(x, ast.Name) for x in g.target.elts) \
+                    and isinstance(g.iter, ast.Call) and isinstance(g.iter.func, ast.Name) and g.iter.func.id == 'enumerate' \
+                    and len(g.iter.args) == 1:
+                return '(OCompEnum %s %s %s %s)' % (self.expr(e.elt), coq_str(g.target.elts[0].id),
+                                                   coq_str(g.target.elts[1].id), self.expr(g.iter.args[0]))
+            self.fail('comprehension target', e)
+        if isinstance(e, ast.Call) and not e.keywords:
+            f = e.func
+            if isinstance(f, ast.Attribute) and isinstance(f.value, ast.Name) and f.value.id == 'mf':
+                return '(OMf %s %s)' % (coq_str(f.attr), self.args(e.args))
+            if isinstance(f, ast.Attribute) and isinstance(f.value, ast.Name) and f.value.id == 'util' \
+                    and f.attr == 'list_without_entry_at' and len(e.args) == 2:
+                return '(OWithout %s %s)' % (self.expr(e.args[0]), self.expr(e.args[1]))
+            if isinstance(f, ast.Attribute) and isinstance(f.value, ast.Name) and f.value.id == 'point' \
+                    and f.attr == 'coordinate' and len(e.args) == 1 and isinstance(e.args[0], ast.Attribute) \
+                    and e.args[0].attr == 'name' and isinstance(e.args[0].value, ast.Name) and e.args[0].value.id == 'self':
+                return 'OCoord'
+            if isinstance(f, ast.Attribute) and f.attr == '_evaluate' and len(e.args) == 1 and self.is_point(e.args[0]):
+                return '(OEvaluate %s)' % self.expr(f.value)
+            if isinstance(f, ast.Attribute) and f.attr == '_numeric_partial' and len(e.args) == 2 \
+                    and isinstance(e.args[0], ast.Name) and e.args[0].id == 'variable_name' and self.is_point(e.args[1]):
+                return '(OPartial %s)' % self.expr(f.value)
+            if isinstance(f, ast.Attribute) and f.attr.startswith('_numeric_partial_formula') and len(e.args) == 2 \
+                    and isinstance(f.value, ast.Name) and f.value.id == 'self' and self.is_point(e.args[0]):
+                return '(OFormula %s %s)' % (coq_str(f.attr[len('_numeric_partial_formula'):]), self.expr(e.args[1]))
+        self.fail('expression', e)
+
+    def block(self, stmts):
+        out = []
+        for s in stmts:
+            if isinstance(s, ast.Expr) and isinstance(s.value, ast.Constant):
+                continue
+            out.append(self.stmt(s))
+        return coq_list(out)
+
+    def stmt(self, s):
+        if isinstance(s, ast.Return):
+            if s.value is None:
+                self.fail('bare return', s)
+            return '(OSReturn %s)' % self.expr(s.value)
+        if isinstance(s, ast.Pass):
+            return 'OSPass'
+        if isinstance(s, ast.If):
+            return '(OSIf %s %s %s)' % (self.expr(s.test), self.block(s.body), self.block(s.orelse))
+        if isinstance(s, ast.Assign) and len(s.targets) == 1 and isinstance(s.targets[0], ast.Name):
+            return '(OSAssign %s %s)' % (coq_str(s.targets[0].id), self.expr(s.value))
+        if isinstance(s, ast.For) and not s.orelse:
+            if isinstance(s.target, ast.Name):
+                return '(OSFor %s %s %s)' % (coq_str(s.target.id), self.expr(s.iter), self.block(s.body))
+            if isinstance(s.target, ast.Tuple) and len(s.target.elts) == 2 and all(isinstance(x, ast.Name) for x in s.target.elts) \
+                    and isinstance(s.iter, ast.Call) and isinstance(s.iter.func, ast.Name) and s.iter.func.id == 'enumerate' \
+                    and len(s.iter.args) == 1 and not s.iter.keywords:
+                return '(OSForEnum %s %s %s %s)' % (coq_str(s.target.elts[0].id), coq_str(s.target.elts[1].id),
+                                                   self.expr(s.iter.args[0]), self.block(s.body))
+        if isinstance(s, ast.Expr) and isinstance(s.value, ast.Call) and not s.value.keywords:
+            c = s.value
+            f = c.func
+            if isinstance(f, ast.Attribute) and f.attr == '_verify_domain_constraints' and isinstance(f.value, ast.Name) \
+                    and f.value.id == 'self':
+                return '(OSVerify %s)' % self.args(c.args)
+            if isinstance(f, ast.Attribute) and f.attr == '_compute_numeric_partials' and len(c.args) == 3 \
+                    and isinstance(c.args[0], ast.Name) and c.args[0].id == 'accumulator' and self.is_point(c.args[2]):
+                return '(OSRev %s %s)' % (self.expr(f.value), self.expr(c.args[1]))
+            if isinstance(f, ast.Attribute) and f.attr == 'add_to' and isinstance(f.value, ast.Name) and f.value.id == 'accumulator' \
+                    and len(c.args) == 2 and isinstance(c.args[0], ast.Name) and c.args[0].id == 'self':
+                return '(OSAddTo %s)' % self.expr(c.args[1])
+            return '(OSExpr %s)' % self.expr(c)
+        self.fail('statement', s)
+
+    def function(self, fd):
+        a = fd.args
+        if a.kwonlyargs or a.kwarg or a.posonlyargs or a.vararg or a.defaults:
+            self.fail('parameters', fd)
+        params = [p.arg for p in a.args]
+        expected = {'_numeric_partial': ['self', 'variable_name', 'point'],
+                    '_compute_numeric_partials': ['self', 'accumulator', 'multiplier', 'point']}[fd.name]
+        if params != expected:
+            self.fail('parameter list %s' % params, fd)
+        return '{| o_params := %s; o_body := %s |}' % (coq_list([coq_str(p) for p in params[1:]]), self.block(fd.body))
+
+
+def generate_orch():
+    lines = ['(* GENERATED by harness/tie_extract.py: the current source of every _numeric_partial and',
+             '   _compute_numeric_partials method, translated into OrchAst.ofun -- do not edit *)',
+             'From Coq Require Import ZArith List String.', 'From SM Require Import OrchAst.',
+             'Import ListNotations.', 'Open Scope string_scope.', '']
+    files = [('expression', fn) for fn in EXPR_FILES] + [('base_expression', fn) for fn in BASE_FILES]
+    owners = []
+    for sub, fn in files:
+        t = parse(os.path.join(SRC, '_private', sub, fn + '.py'))
+        for node in t.body:
+            if isinstance(node, ast.ClassDef):
+                for m in methods_of(node):
+                    if m.name in ('_numeric_partial', '_compute_numeric_partials'):
+                        body = [s for s in m.body if not (isinstance(s, ast.Expr) and isinstance(s.value, ast.Constant))]
+                        if len(body) == 1 and isinstance(body[0], ast.Raise):
+                            continue
+                        tr = OrchTranslator('%s.%s' % (node.name, m.name))
+                        ident = 'gen_orch_%s_%s' % (node.name, 'fwd' if m.name == '_numeric_partial' else 'rev')
+                        lines.append('Definition %s : ofun := %s.' % (ident, tr.function(m)))
+                        owners.append((node.name, m.name))
+    lines.append('')
+    lines.append('(* which classes define the two traversals themselves (the others inherit them) *)')
+    lines.append('Definition gen_orch_owners : list (string * string) := ' +
+                 coq_list(['(%s, %s)' % (coq_str(c), coq_str(m)) for c, m in sorted(owners)]) + '.')
+    return '\n'.join(lines) + '\n'
+
+
 def write_if_changed(path, text):
     old = open(path).read() if os.path.exists(path) else None
     if old != text:
@@ -827,6 +988,14 @@ def main():
         print('TIE-TRANSLATE-FAILED: %s' % ex)
     if write_if_changed(os.path.join(coqdir, 'GeneratedSym.v'), stext):
         print('GeneratedSym.v rewritten')
+    try:
+        otext = generate_orch()
+    except (TieError, SyntaxError, OSError) as ex:
+        otext = ('(* GENERATED: the translator FAILED CLOSED: %s *)\n'
+                 'Definition orch_translator_failed : False := I.\n') % str(ex).replace('*)', '* )')
+        print('TIE-TRANSLATE-FAILED: %s' % ex)
+    if write_if_changed(os.path.join(coqdir, 'GeneratedOrch.v'), otext):
+        print('GeneratedOrch.v rewritten')
     out = sys.argv[1] if len(sys.argv) > 1 else os.path.join(os.path.dirname(os.path.dirname(os.path.abspath(__file__))), 'coq', 'Generated.v')
     try:
         text = generate()
